@@ -51,6 +51,13 @@ TypedFeature(rrset) ==
 VFeature(sig, rrset) ==
   IF sig.f.Labels = 0 /\ Len(rrset[1].name) >= 1 THEN "wildcard-at-root" ELSE Feature(rrset)
 
+\* Cases whose Go strings spell octets >= 0x80 raw (the abstract values are the same) are filed apart; where the octets are no
+\* UTF-8 the library's case folding is known to mangle them whatever else the case exercises: one key per clause.
+RawTag(e) == IF "rawtag" \in DOMAIN e THEN e.rawtag ELSE ""
+K(e, clause, tail) == IF RawTag(e) = "raw-nonutf8" THEN clause \o ":raw-nonutf8"
+                      ELSE IF RawTag(e) = "" THEN clause \o ":" \o tail
+                      ELSE clause \o ":" \o tail \o ":" \o RawTag(e)
+
 WFEvent(e) ==
   /\ \A i \in 1..Len(e.rrset) : WFRR(e.rrset[i])
   /\ Len(e.rrset) >= 1
@@ -69,9 +76,9 @@ SignKey(e) ==
     IF ~EmitX([id |-> e.id, kind |-> "sign", feature |-> TypedFeature(e.rrset), data |-> SignedData(want.f, e.rrset),
                \* the octets for the RRSIG as Sign actually filled it (they differ from `data' when the fields are wrong)
                dataout |-> IF e.ok /\ WFSig(e.out) THEN SignedData(e.out.f, e.rrset) ELSE <<>>]) THEN "trace/emit"
-    ELSE IF ~e.ok THEN "dnssec/sign-error:" \o feat
+    ELSE IF ~e.ok THEN K(e, "dnssec/sign-error", feat)
     ELSE IF ~WFSig(e.out) THEN "dnssec/sign-fields:ill-formed"
-    ELSE IF FirstFieldDiff(e.out, want) # "" THEN "dnssec/sign-fields:" \o FirstFieldDiff(e.out, want) \o ":" \o feat
+    ELSE IF FirstFieldDiff(e.out, want) # "" THEN K(e, "dnssec/sign-fields", FirstFieldDiff(e.out, want) \o ":" \o feat)
     ELSE ""
 
 CheckKey(e) ==
@@ -109,15 +116,15 @@ VerifyKey(e) ==
              IF vf = "wildcard-at-root" THEN "dnssec/verify-rejects-valid:wildcard-at-root"
              ELSE IF e.kind = "ddd-spelling" THEN "dnssec/verify-rejects-valid:ddd-spelling"
              ELSE IF e.kind = "rdata-name-case" \/ vf = "rdata-name-uppercase"
-               THEN "dnssec/verify-rejects-valid:" \o tn \o ":rdata-name-case"
-             ELSE "dnssec/verify-rejects-valid:" \o e.kind \o ":" \o vf)
+               THEN K(e, "dnssec/verify-rejects-valid", tn \o ":rdata-name-case")
+             ELSE K(e, "dnssec/verify-rejects-valid", e.kind \o ":" \o vf))
     ELSE IF ~e.sigok /\ PreChecks(e.sig, e.key, e.rrset) THEN
        \* accepted although the primitive rejects the signature over the specified octets.  When the variant denotes the
        \* very octets and signature of the signed original, the fault lies with what was signed, not with the variant.
        (IF e.data = e.odata /\ e.sig.f.Signature = e.osig
-        THEN "dnssec/verify-accepts-invalid:signature:unaltered:" \o TypedFeature(e.rrset)
-        ELSE "dnssec/verify-accepts-invalid:signature:" \o e.kind)
-    ELSE "dnssec/verify-accepts-invalid:" \o e.kind \o ":" \o FirstPreFail(e.sig, e.key, e.rrset)
+        THEN K(e, "dnssec/verify-accepts-invalid:signature:unaltered", TypedFeature(e.rrset))
+        ELSE K(e, "dnssec/verify-accepts-invalid:signature", e.kind))
+    ELSE K(e, "dnssec/verify-accepts-invalid", e.kind \o ":" \o FirstPreFail(e.sig, e.key, e.rrset))
 
 Key(e) == CASE e.ev = "sign"   -> SignKey(e)
             [] e.ev = "check"  -> CheckKey(e)
